@@ -191,7 +191,8 @@ def run_configs(ctx):
     # ---- same configuration again, in another process ------------------------------------------------
     if "again" in configs:
         o = ctx.path("again")
-        rs = ctx.child([{"op": "new", "xml": xml}, {"op": "generate", "out": o}, {"op": "digest", "dir": o}], "0")
+        rs = ctx.child([{"op": "new", "xml": xml, "keyword": True}, {"op": "generate", "out": o, "keyword": True},
+                        {"op": "digest", "dir": o}], "0")
         key("again")
         if not ctx.judge("identical-rerun", rs[1], rs[2]["files"]):
             return False
